@@ -37,6 +37,7 @@ true statements about the input in mmCIF dictionary terms), see written_rows_che
 """
 
 import io
+import os
 import itertools
 import json
 import math
@@ -1306,7 +1307,7 @@ def table_cats(tb, drop=()):
             cols["conn_type_id"].append(c["type"])
             cols["pdbx_value_order"].append(c["order"])
             for p, key in ((1, "p1"), (2, "p2")):
-                r = rows[c[key]]
+                r = c[key] if isinstance(c[key], dict) else rows[c[key]]
                 cols["ptnr%d_label_asym_id" % p].append(r["asym"])
                 cols["ptnr%d_label_comp_id" % p].append(r["comp"])
                 cols["ptnr%d_label_seq_id" % p].append(str(r["seq"]))
@@ -1378,7 +1379,7 @@ def model_bonds_fn(tb, use_author):
             t = [s[2] for s in INTER_SPELL if s[0] == c["type"] and s[1] == c["order"]][0]
             if t is None:
                 continue
-            if c["p1"] in pos and c["p2"] in pos:
+            if not isinstance(c["p1"], dict) and not isinstance(c["p2"], dict) and c["p1"] in pos and c["p2"] in pos:
                 out.append([pos[c["p1"]], pos[c["p2"]], t])
         return out
 
@@ -2605,6 +2606,19 @@ def flavour_case(ctx, case):
                     res = roundtrip(spec, flavour)
                     for kind, (e_, o_) in expand_kinds(spec, res).items():
                         hit(flavour, kind, "all_values_empty:" + case["what"], e_, o_)
+            elif sub == "ambient":
+                ambient_check(ctx, case, flavour, hit)
+            elif sub == "precedence":
+                if precedence_check(case, flavour, hit) == "unspecified":
+                    unspecified[0] = True
+            elif sub == "foreign":
+                if foreign_check(case, flavour, hit) == "unspecified":
+                    unspecified[0] = True
+            elif sub == "threshold":
+                spec = threshold_spec(case)
+                res = roundtrip(spec, flavour)
+                for kind, (e_, o_) in expand_kinds(spec, res).items():
+                    hit(flavour, kind, "res_id_step=%d,bond=%s" % (case["step"], case["bond"]), e_, o_)
             elif sub == "strings":
                 # two awkward features in one value (handled by different branches of the text writer)
                 spec = apply_devs(((2, 1), (0, 0)), PALETTES[case["pal"]], [["bonds", None, "path"], ["extra", None, "plain"]])
@@ -2643,6 +2657,255 @@ def flavour_case(ctx, case):
             continue
         ctx.violation("flavour|%s|%s|%s|%s" % (fl, sub, failure, cls),
                       "%s: %s (%s)" % (sub, failure, cls), case, ent["e"], ent["o"])
+
+
+# ---- third audit: ambient state, option precedence, foreign rows, threshold of the link rule -------------
+ALT_CCD_BONDS = {"ALA": {("N", "CA"): 2}}  # what differs in the alternative dictionary (and GLY: NON-POLYMER)
+
+
+def alt_ccd_path():
+    """A second synthetic dictionary: ALA N-CA is a double bond, GLY is no polymer component."""
+    import copy
+    from mc import ccd, loader
+
+    path = loader.BUILD / "ccd_synth_alt.bcif"
+    if path.exists():
+        return path
+    orig = ccd.COMPONENTS
+    alt = copy.deepcopy(orig)
+    n, t, o, fw, atoms, bonds = alt["ALA"]
+    alt["ALA"] = (n, t, o, fw, atoms, [("N", "CA", "DOUB", "N")] + [b for b in bonds if b[:2] != ("N", "CA")])
+    n, t, o, fw, atoms, bonds = alt["GLY"]
+    alt["GLY"] = (n, "NON-POLYMER", o, fw, atoms, bonds)
+    try:
+        ccd.COMPONENTS = alt
+        f = ccd._build()
+    finally:
+        ccd.COMPONENTS = orig
+    tmp = str(path) + ".tmp%d" % os.getpid()
+    f.write(tmp)
+    os.replace(tmp, path)
+    return path
+
+
+def ambient_check(ctx, case, flavour, hit):
+    """Ambient state changes as events between the operations: the result must not follow numpy's print /
+    error state or the working directory; it must follow the component dictionary set_ccd_path() installs."""
+    import biotite.structure.info as info
+    from biotite.structure.io import pdbx
+    from mc import ccd
+
+    File, _ = _classes(flavour)
+    ev = case["event"]
+    if ev != "ccd_switch":
+        spec = flavour_base(1, 0)
+        fields = _fields(None, spec)
+        ref = File()
+        _put(ref, spec)
+        base = _reads(_load(flavour, _dump(flavour, ref)), None, fields)
+        old_print, old_err, old_cwd = np.get_printoptions(), np.geterr(), os.getcwd()
+
+        def event():
+            if ev == "printoptions":
+                np.set_printoptions(precision=1, suppress=True, threshold=2, floatmode="fixed")
+            elif ev == "printoptions_legacy_1.13":
+                np.set_printoptions(legacy="1.13")
+            elif ev == "errstate":
+                np.seterr(all="raise")
+            elif ev == "cwd":
+                os.chdir("/")
+
+        try:
+            for when in ("before_write", "between_write_and_serialise", "before_read"):
+                f = File()
+                if when == "before_write":
+                    event()
+                _put(f, spec)
+                if when == "between_write_and_serialise":
+                    event()
+                data = _dump(flavour, f)
+                g = _load(flavour, data)
+                if when == "before_read":
+                    event()
+                d = _first_diff(base, _reads(g, None, fields))
+                np.set_printoptions(**old_print)
+                np.seterr(**old_err)
+                os.chdir(old_cwd)
+                if d is not None and ev == "printoptions_legacy_1.13":
+                    # numpy's legacy mode changes str() of every float; the statement is silent on it
+                    ctx.count("unspecified_numpy_legacy_print_mode_changes_written_floats")
+                elif d is not None:
+                    hit(flavour, "result_follows_ambient_state:%s" % d, "%s,%s" % (ev, when), "as without the event", d)
+        finally:
+            np.set_printoptions(**old_print)
+            np.seterr(**old_err)
+            os.chdir(old_cwd)
+        return
+
+    def go():
+        # in a forked child: the dictionary is module state of biotite.structure.info
+        atoms = [["A", 1, "", "ALA", 0, "N", "N"], ["A", 1, "", "ALA", 0, "CA", "C"], ["A", 1, "", "ALA", 0, "C", "C"],
+                 ["A", 2, "", "GLY", 0, "N", "N"]]
+        spec = {"atoms": atoms, "coord": [[[1.5 * k, 0.0, -k] for k in range(4)]], "stack": False, "box": None,
+                "opt": {}, "extra": None, "bonds": None}
+        f = File()
+        _put(f, spec)
+        g = _load(flavour, _dump(flavour, f))
+        want = {"std": [[0, 1, 1], [1, 2, 1], [2, 3, 1]], "alt": [[0, 1, 2], [1, 2, 1]]}
+        paths = {"std": ccd.ensure_ccd(), "alt": alt_ccd_path()}
+        out = []
+        for which in case["order"]:
+            info.set_ccd_path(paths[which])
+            r = pdbx.get_structure(g, model=1, include_bonds=True)
+            got = sorted([int(i), int(j), int(t)] for i, j, t in r.bonds.as_array())
+            out.append((which, want[which], got))
+        return out
+
+    r = ctx.isolated(go, timeout=60)
+    if r[0] != "ok":
+        hit(flavour, "ccd_switch_failed_%s" % r[0], "order=" + "-".join(case["order"]), "bond lists", repr(r[1:])[:200])
+        return
+    seen_before = []
+    for which, want, got in r[1]:
+        if want != got:
+            hit(flavour, "bonds_not_from_the_installed_dictionary",
+                "set_ccd_path_as_event", {"dictionary": which, "bonds": want},
+                {"bonds": got, "dictionaries_used_before": list(seen_before)})
+        seen_before.append(which)
+
+
+def precedence_check(case, flavour, hit):
+    """A value that can come from two places: explicit argument vs object; both present and different."""
+    import biotite.structure as struc
+    from biotite.structure.io import pdbx
+
+    File, Block = _classes(flavour)
+    what = case["what"]
+    spec = flavour_base(0, 0)
+    fields = _fields(None, spec)
+    if what in ("block_object_ignores_data_block", "explicit_name_of_the_single_block", "two_blocks_default_block"):
+        f = File()
+        _put(f, spec)
+        base = _reads(f, None, fields)
+        if what == "explicit_name_of_the_single_block":
+            d = _first_diff(base, _reads(f, "structure", fields))
+        elif what == "block_object_ignores_data_block":
+            b = Block()
+            pdbx.set_structure(b, build(spec), data_block="ignored", include_bonds=True, extra_fields=[EXTRA_NAME])
+            d = _first_diff(base, _reads(b, "also_ignored", fields)) or _first_diff(base, _reads(f.block, "x", fields))
+        else:
+            other = flavour_base(1, 1)
+            pdbx.set_structure(f, build(other), data_block="second", include_bonds=True, extra_fields=[EXTRA_NAME])
+            got = _reads(f, None, fields)
+            if all(g[0] == "raised" for g in got):
+                return "unspecified"  # documented default "first block"; the tree refuses a file with several blocks
+            d = _first_diff(base, got)
+        if d is not None:
+            hit(flavour, "read_differs:%s" % d, what, "the single / first / passed block", d)
+    elif what == "entity_id_annotation_wins":
+        a = build(spec)
+        a.set_annotation("label_entity_id", np.array([5, 5, 7, 9]))
+        f = File()
+        pdbx.set_structure(f, a, include_bonds=True, extra_fields=[EXTRA_NAME])
+        r = pdbx.get_structure(_load(flavour, _dump(flavour, f)), model=1, extra_fields=["label_entity_id"])
+        got = [str(v) for v in r.label_entity_id]
+        if got != ["5", "5", "7", "9"]:
+            hit(flavour, "annotation_does_not_win_over_derived_value", what, ["5", "5", "7", "9"], got)
+    elif what == "label_column_next_to_author_annotation":
+        tb, drop = sel_table({"names": 0, "alts": [".", ".", "."], "occ": [1, 0, 2], "r2": ".", "models": 1, "variant": "full"})
+        f = table_read(table_cats(tb, drop), flavour)
+        for author in (True, False):
+            other = "label_asym_id" if author else "auth_asym_id"
+            r = pdbx.get_structure(f, model=1, use_author_fields=author, extra_fields=[other, "label_seq_id"])
+            want_chain = [row["a_asym" if author else "asym"] for row in tb["rows"]]
+            want_other = [row["asym" if author else "a_asym"] for row in tb["rows"]]
+            if r.chain_id.tolist() != want_chain or [str(v) for v in r.get_annotation(other)] != want_other or [
+                    str(v) for v in r.label_seq_id] != [str(row["seq"]) for row in tb["rows"]]:
+                hit(flavour, "explicit_column_and_standard_annotation_mixed_up", "%s,author=%d" % (what, author),
+                    {"chain_id": want_chain, other: want_other},
+                    {"chain_id": r.chain_id.tolist(), other: [str(v) for v in r.get_annotation(other)]})
+    elif what.startswith("fallback:"):
+        # documented: "If the requested field is not available, the respective other field is taken as fallback"
+        col = what.split(":")[1]  # e.g. auth_seq_id
+        tb, _ = sel_table({"names": 0, "alts": [".", "A", "B"], "occ": [1, 0, 2], "r2": ".", "models": 1, "variant": "full"})
+        tb["conn"] = []
+        cols = ["auth_seq_id", "auth_asym_id", "auth_comp_id", "auth_atom_id"] if col == "auth_all" else (
+            ["label_seq_id", "label_asym_id", "label_comp_id", "label_atom_id"] if col == "label_all" else [col])
+        author = cols[0].startswith("auth")
+        f = table_read(table_cats(tb, tuple(cols)), flavour)
+        tb2 = json.loads(json.dumps(tb))
+        pairs = {"seq_id": ("a_seq", "seq"), "asym_id": ("a_asym", "asym"), "comp_id": ("a_comp", "comp"), "atom_id": ("a_name", "name")}
+        for c in cols:
+            a_key, l_key = pairs[c.split("_", 1)[1]]
+            for row in tb2["rows"]:
+                if author:
+                    row[a_key] = row[l_key]
+                else:
+                    row[l_key] = row[a_key]
+        rd = {"model": 1, "altloc": "first", "author": author, "extra": ["atom_id"], "bonds": False}
+        model = model_get_structure(tb2["rows"], {"label_alt_id", "occupancy"}, 1, "first", author, ["atom_id"], None)
+        try:
+            r = pdbx.get_structure(f, model=1, altloc="first", use_author_fields=author, extra_fields=["atom_id"])
+            d = compare(model[1][0], observe(r), flavour)
+        except Exception as e:  # noqa: BLE001
+            d = [("raises_" + type(e).__name__, "fallback value", str(e)[:200])]
+        for field, e_, o_ in d[:1]:
+            hit(flavour, "differs_" + field, what, str(e_)[:300], str(o_)[:300])
+    else:
+        raise ValueError(case)
+    return None
+
+
+def foreign_check(case, flavour, hit):
+    """Bond tables that are LARGER than the structure: struct_conn rows naming atoms atom_site does not
+    have, chem_comp_bond rows for absent components / atom names, next to valid rows.  The reader may
+    refuse such a file (unspecified); if it reads it, the valid rows must come out untouched."""
+    from biotite.structure.io import pdbx
+
+    tb, _ = indep_table({"fam": "indep", "tpl": "pep3+1", "edges": [[0, 1, 2], [1, 3, 2], [0, 3, 6]], "models": 1, "cell": 0})
+    ghost = dict(tb["rows"][3])
+    ghost.update(seq=99, a_seq=99, name="ZZ", a_name="ZZ")
+    ghost2 = dict(tb["rows"][0])
+    ghost2.update(asym="Q", a_asym="Q")
+    rows = {"first_partner": {"type": "covale", "order": "doub", "p1": ghost, "p2": 1},
+            "second_partner": {"type": "metalc", "order": "?", "p1": 0, "p2": ghost},
+            "both_partners": {"type": "covale", "order": "?", "p1": ghost2, "p2": ghost}}
+    extra = rows[case["missing"]]
+    tb["conn"] = {"before": [extra] + tb["conn"], "after": tb["conn"] + [extra], "between": tb["conn"][:1] + [extra] + tb["conn"][1:]}[
+        case["position"]]
+    if case["ccb"] == "absent_component":
+        tb["ccb"] = [("XYZ", "N", "CA", "TRIP", "N")] + tb["ccb"]
+    elif case["ccb"] == "absent_atom_name":
+        tb["ccb"] = tb["ccb"] + [("ALA", "N", "QQ", "DOUB", "N"), ("GLY", "QQ", "N", "SING", "N")]
+    f = table_read(table_cats(tb, ()), flavour)
+    want = sorted(model_bonds_fn(tb, True)(tb["rows"]))
+    d = {}
+    for i, j, t in want:
+        d.setdefault((min(i, j), max(i, j)), t)
+    want = sorted([i, j, t] for (i, j), t in d.items())
+    try:
+        r = pdbx.get_structure(f, model=1, include_bonds=True)
+    except Exception:  # noqa: BLE001
+        return "unspecified"
+    got = sorted([int(i), int(j), int(t)] for i, j, t in r.bonds.as_array())
+    if got != want:
+        hit(flavour, "valid_bond_rows_disturbed_by_rows_for_absent_atoms",
+            "missing=%s,position=%s,chem_comp_bond=%s" % (case["missing"], case["position"], case["ccb"]), want, got)
+    return None
+
+
+def threshold_spec(case):
+    """ALA [CA, C] followed by GLY [N, CA] whose res_id differs by `step` (0: insertion code): on both
+    sides of the 'consecutive residue' threshold of the link rule."""
+    step = case["step"]
+    atoms = [["A", 10, "", "ALA", 0, "CA", "C"], ["A", 10, "", "ALA", 0, "C", "C"],
+             ["A", 10 + step, "A" if step == 0 else "", "GLY", 0, "N", "N"],
+             ["A", 10 + step, "A" if step == 0 else "", "GLY", 0, "CA", "C"]]
+    bonds = [[0, 1, 1], [2, 3, 1]]
+    if case["bond"] != "none":
+        bonds.append([1, 2, {"single": 1, "double": 2}[case["bond"]]])
+    return {"atoms": atoms, "coord": [[[1.5 * k, 0.25, -k] for k in range(4)]], "stack": False, "box": None, "opt": {},
+            "extra": None, "bonds": bonds}
 
 
 TWO_FEATURES = {
@@ -2971,6 +3234,23 @@ def flavour_cases(tier, seed):
                 yield {**base, "sub": "args", "model": model, "int_type": int_type, "container": container}
     for what in ("chain_id", "ins_code", "res_name", "atom_name", "element", "extra", "depth0_stack", "length0_stack"):
         yield {**base, "sub": "empty", "what": what}
+    for event in ("printoptions", "printoptions_legacy_1.13", "errstate", "cwd"):
+        yield {**base, "sub": "ambient", "event": event}
+    for order in (["std", "alt", "std"], ["alt", "std", "alt"]):
+        yield {**base, "sub": "ambient", "event": "ccd_switch", "order": order}
+    for what in ("block_object_ignores_data_block", "explicit_name_of_the_single_block", "two_blocks_default_block",
+                 "entity_id_annotation_wins", "label_column_next_to_author_annotation", "fallback:auth_seq_id",
+                 "fallback:auth_asym_id", "fallback:auth_comp_id", "fallback:auth_atom_id", "fallback:auth_all",
+                 "fallback:label_seq_id", "fallback:label_asym_id", "fallback:label_comp_id", "fallback:label_atom_id",
+                 "fallback:label_all"):
+        yield {**base, "sub": "precedence", "what": what}
+    for missing in ("first_partner", "second_partner", "both_partners"):
+        for position in ("before", "between", "after"):
+            for ccb in ("none", "absent_component", "absent_atom_name"):
+                yield {**base, "sub": "foreign", "missing": missing, "position": position, "ccb": ccb}
+    for step in (-2, -1, 0, 1, 2, 3):
+        for bond in ("none", "single", "double"):
+            yield {**base, "sub": "threshold", "step": step, "bond": bond}
     for pos in STRING_POSITIONS:
         for label, v in TWO_FEATURES.items():
             if "\n" in v and pos != "extra":
